@@ -35,6 +35,7 @@ type Check struct {
 }
 
 func newCheck(id string, p *Prog) *Check {
+	curProg = p
 	return &Check{ID: id, P: p, Funcs: map[string]bool{}, Rules: map[string]int{}}
 }
 
